@@ -133,6 +133,12 @@ example : fromSparse (0 : Int) [[1, 2], [3, 4]] [[5, 10], [5, 10]] [0, 10, 20, 3
     some [[0, 2, 0, 0, 0, 0, 0, 0, 0, 0, 0, 0, 0], [0, 4, 0, 0, 0, 0, 0, 0, 0, 0, 0, 0, 0]] := by decide +kernel
 example : ColsOK [[5, 10], [5, 10]] ∧ [0, 10, 20, 30, 40, 50, 60, 70, 80, 90, 100, 110, 120].Nodup := by
   unfold ColsOK; decide
+-- a store that LISTS ONE spike (a subset of one spike is a subset): spike 2 is served, spike 0 is not stored
+example :
+    let sf : Sparse Int := ⟨[[10, 11]], some [[0, 1], [1, 2]], some [2]⟩
+    getFeatures 0 (-99) sf 2 [0, 1, 0, 1] [2, 0] [1, 0] = some [[11, 10], [-99, -99]] := by decide
+example : StoreOK (⟨[[10, 11]], some [[0, 1], [1, 2]], some [2]⟩ : Sparse Int) 2 4 2 [0, 1, 0, 1] := by
+  unfold StoreOK ColsOK; decide
 -- without a row table a repeated request is served at both positions
 example :
     let sf : Sparse Int := ⟨[[10, 11], [20, 21], [30, 31]], some [[0, 2], [1, -1]], none⟩
@@ -155,5 +161,12 @@ example : projection (⟨[4, 7], [[2, 0, -1], [1, -1, -1]], [[[1, 2, 0], [3, 4, 
 example : WStoreOK (⟨[4, 7], [[2, 0, -1], [1, -1, -1]], [[[1, 2, 0], [3, 4, 0]], [[5, 0, 0], [6, 0, 0]]]⟩ : WStore) 2 := by
   unfold WStoreOK RowOK; decide
 example : indexOfI [0, 2] [2, 0, -1, -1] = some [1, 0] := by decide
+/-! a store in a layout the exporter does not write: stored spikes in decreasing order, −1 BEFORE a channel in a row -/
+example : getFeaturesPca (fun _ => [[[1, 0], [0, 1]], [[1, 1], [1, 1]], [[0, 2], [1, 0]]])
+      (⟨[7, 4], [[-1, 1, -1], [-1, 0, 2]], [[[0, 5, 0], [0, 6, 0]], [[0, 2, 1], [0, 4, 3]]]⟩ : WStore) 2 [7, 3, 4] [0, 1] =
+    some [[[0, 0, 0], [6, 11, 10]], [[0, 0, 0], [0, 0, 0]], [[2, 6, 4], [0, 0, 0]]] := by decide +kernel
+example : WStoreOK (⟨[7, 4], [[-1, 1, -1], [-1, 0, 2]], [[[0, 5, 0], [0, 6, 0]], [[0, 2, 1], [0, 4, 3]]]⟩ : WStore) 2 := by
+  unfold WStoreOK RowOK; decide
+example : indexOfI [0, 2] [-1, 0, 2] = some [1, 2] := by decide
 
 end PhyVerif.C06
